@@ -193,6 +193,7 @@ func c08Check(x *core.Ctx, c *core.Case) {
 	expect := c.Get("expect")
 	ref := rval.Validate(mg, model.FromAST(doc))
 	errs := validator.Validate(schema, doc)
+	c08EntryPoints(x, schema, c.Get("doc"), errs)
 	codes := ref.Codes()
 	for _, a := range ref.Abstain {
 		x.Count("abstain:" + a)
@@ -272,4 +273,37 @@ func c08Check(x *core.Ctx, c *core.Case) {
 		}
 	}
 	_ = sort.Strings
+}
+
+// c08EntryPoints: LoadQuery and MustLoadQuery are parse + validate under another name; they must give the verdict and the
+// errors of Validate on a fresh parse (rule, message, locations; LoadQuery's source has no name, so no file is compared).
+func c08EntryPoints(x *core.Ctx, schema *ast.Schema, dsrc string, errs gqlerror.List) {
+	if core.HashString(dsrc)%4 != 0 {
+		return
+	}
+	key := func(l gqlerror.List) string {
+		var b strings.Builder
+		for _, e := range l {
+			b.WriteString(errKey(e))
+			b.WriteByte('\n')
+		}
+		return b.String()
+	}
+	qd, lerrs := gqlparser.LoadQuery(schema, dsrc)
+	x.Count("load_query_calls")
+	switch {
+	case (qd != nil) != (len(lerrs) == 0):
+		x.Violate("LoadQuery:result-shape", fmt.Sprintf("document=%v errors=%d", qd != nil, len(lerrs)), "a document or errors")
+	case key(lerrs) != key(errs):
+		x.Violate("LoadQuery:differs-from-Validate("+errListDiffKind(key(errs), key(lerrs))+")", key(lerrs), key(errs))
+	}
+	var panicked interface{}
+	var md *ast.QueryDocument
+	func() {
+		defer func() { panicked = recover() }()
+		md = gqlparser.MustLoadQuery(schema, dsrc)
+	}()
+	if (panicked != nil) != (len(errs) > 0) || (panicked == nil && md == nil) {
+		x.Violate("MustLoadQuery:verdict", fmt.Sprintf("panicked=%v document=%v", panicked != nil, md != nil), fmt.Sprintf("panic iff Validate reports errors (%d)", len(errs)))
+	}
 }
